@@ -39,7 +39,8 @@ class Contract:
                  self_type=None, lemmas=(), exc_ensures=None, start_loop=None, start_assume=(),
                  name=None, notes='', trusted=False, body=None, stop_at_loop_exit=None, end_ensures=None,
                  calls=None, level='P', ghost=None, yields=None, rely=None, inline_src=None,
-                 skip_frame=False, at_exit=(), fields=None, ghost_requires=(), ghost_sets=None):
+                 skip_frame=False, at_exit=(), fields=None, ghost_requires=(), ghost_sets=None,
+                 start_after_loop=None, stop_after_loop=None, heap_consts=False):
         self.target = target
         self.file, self.qualname = target.split('::') if '::' in target else (None, target)
         self.params = dict(params or {})
@@ -70,7 +71,13 @@ class Contract:
         self.skip_frame = skip_frame
         self.at_exit = [at_exit] if isinstance(at_exit, str) else list(at_exit)
         self.fields = dict(fields or {})
-        self.ghost_sets = dict(ghost_sets or {})   # ghost global name -> expression (over old state) it is set to by a call
+        self.ghost_sets = dict(ghost_sets or {})
+        # tiling a function into segments at its top-level loops: a segment starts right after loop `start_after_loop` (locals from
+        # contract.locals, start_assume as precondition) and ends right after loop `stop_after_loop`, where end_ensures is proved
+        self.heap_consts = heap_consts
+        self.start_after_loop = start_after_loop
+        self.stop_after_loop = stop_after_loop
+        self.end_ensures = [end_ensures] if isinstance(end_ensures, str) else list(end_ensures or [])   # ghost global name -> expression (over old state) it is set to by a call
 
 
 class ClassDecl:
